@@ -1,10 +1,14 @@
 mod child;
 mod exec;
+mod keys;
+mod node;
+mod store;
 mod refpb;
 mod rng;
 mod sink;
 mod streams {
     pub mod codec;
+    pub mod node;
 }
 mod text;
 
@@ -40,6 +44,8 @@ fn main() {
         "chunks" => streams::codec::chunks_stream(seed, cases, arg(&args, "--cutlen", 200), &mut ex),
         "noncanon" => streams::codec::noncanon_stream(seed, cases, &mut ex),
         "shortframes" => streams::codec::shortframes_stream(maxlen, &mut ex),
+        "node" => streams::node::node_stream(seed, cases, streams::node::Cfg { keys: arg(&args, "--keys", 5), peers: arg(&args, "--peers", 3), ops: arg(&args, "--ops", 80), big_wantlists: false }),
+        "nodebig" => streams::node::node_stream(seed, cases, streams::node::Cfg { keys: 3100, peers: 2, ops: arg(&args, "--ops", 30), big_wantlists: true }),
         _ => {
             eprintln!("unknown stream {stream}");
             std::process::exit(2);
